@@ -81,6 +81,9 @@ def run(ctx, env):
     ctx.rule("R7.1", "each decoder call is dominated by contains_key(&id)==true on the very map and key the decoder's own get(&id) reads")
     ctx.rule("R7.2", "the fall-through (no guard true) builds Err and reaches no decoder call and no cache write")
     ctx.rule("R7.3", "each unwrap_or_default() on a cache lookup is inside a decoder that is only called under R7.1's guard; IPFIX decoders reject an empty field list before decoding")
+    ctx.rule("R7.7", "a data set for an unknown id is looked up, not parsed as a template record: set ids 255 and above reach neither template parser, so the set cannot teach the cache (shared with C05 R5.2)")
+    from . import c05 as _c05
+    _c05.set_id_dispatch_rule(ctx, prog, an, "R7.7", only_data=True)
     ctx.rule("R7.6", "every flowset of a V9 packet reaches the template lookup: the flowset repetition is bounded by header.count itself and finishes early only on empty input, so a data flowset without a template cannot be left unexamined (and re-read as something else) instead of failing the packet (shared with C14 R14.6)")
     from . import loopexit as _le
     _le.flowset_repetition_rule(ctx, prog, an, "R7.6")
